@@ -93,6 +93,36 @@ func raceSSHSessions() {
 	wg.Wait()
 }
 
+// raceLongLines: plain dcat of a file whose lines are longer than the transport buffer, three at a time (the
+// remainder / pooled-buffer paths of the server handler).
+func raceLongLines() {
+	WriteAuthorizedKeys("alice", Keys[0].Line+"\n")
+	ts := StartServer(10)
+	defer ts.Stop()
+	config.Server.MaxLineLength = 100000
+	var sb strings.Builder
+	for i := 0; i < 40; i++ {
+		sb.WriteString(strings.Repeat(string(rune('A'+i%26)), 40000+i) + "\n")
+	}
+	f := core.WriteScratch("race/long.log", sb.String())
+	var wg sync.WaitGroup
+	for i := 0; i < 3; i++ {
+		wg.Add(1)
+		go func() {
+			defer wg.Done()
+			args := config.Args{ConnectionsPerCPU: 10, SSHPort: config.DefaultSSHPort, Quiet: true, NoColor: true, Plain: true,
+				ServersStr: ts.Addr, UserName: "alice", LogLevel: "error", What: f,
+				SSHAuthMethods: []ssh.AuthMethod{ssh.PublicKeys(Keys[0].Signer)}}
+			ctx, cancel := context.WithTimeout(context.Background(), 60*time.Second)
+			defer cancel()
+			if cl, err := clients.NewCatClient(args); err == nil {
+				cl.Start(ctx, make(chan string))
+			}
+		}()
+	}
+	wg.Wait()
+}
+
 func racePass(c *core.Ctx) {
 	os.Setenv("VERIF_NATIVE_LOGGER", "stdout")
 	Setup()
@@ -109,24 +139,34 @@ func racePass(c *core.Ctx) {
 		raceSSHSessions()
 		c.Count(fmt.Sprintf("ssh-sessions-%d", i))
 	}
+	raceLongLines()
+	c.Count("long-lines")
 	time.Sleep(1500 * time.Millisecond) // server-side goroutines of the last sessions end within a second
 	syscall.Dup2(saved, 1)
 	c.Sample("8 client handlers printing coloured REMOTE/SERVER/CLIENT records concurrently; 6 concurrent real sessions (3 dcat with two files, 2 dgrep, 1 dmap) against one real server")
 }
 
 func init() {
-	for _, p := range []string{"C16", "C07"} {
+	for _, p := range []string{"C16", "C07", "C02", "C06", "C13"} {
 		core.Register(&core.Check{
 			ID:       p + "R",
 			ReportAs: p,
 			Level:    "exploration",
 			Rule: "free-running -race pass (supplements the controlled exploration, whose scheduler hand-offs hide unsynchronised accesses): 8 client handlers printing coloured records concurrently, and 6 concurrent real sessions " +
-				"(dcat with two files, dgrep, dmap) against one real server, in a binary built with the Go race detector; every reported data race is a violation",
+				"(dcat with two files, dgrep, dmap) against one real server, and 3 concurrent plain dcat of 40 lines longer than the transport buffer, in a binary built with the Go race detector; every reported data race is a violation",
 			Assumptions: []string{"the race detector reports races on the executed paths only (happens-before based, independent of the actual interleaving)"},
 			Serial:      true,
 			QuickBudget: 200 * time.Second,
-			RaceFilter:  map[string][]string{"C16": {"internal/color", "internal/clients/handlers", "internal/io/dlog"}, "C07": {"internal/clients/handlers", "internal/server/handlers.(*baseHandler)", "internal/io/dlog", "internal/io/line", "internal/io/pool", "internal/color"}}[p],
-			Run:         racePass,
+			RaceFilter: map[string][]string{"C16": {"internal/color", "internal/clients/handlers", "internal/io/dlog"},
+				"C07": {"internal/clients/handlers", "internal/server/handlers.(*baseHandler)", "internal/io/dlog", "internal/io/line", "internal/io/pool", "internal/color"},
+				"C02": {"internal/server/handlers", "internal/io/fs", "internal/io/pool", "internal/io/line", "internal/clients", "internal/regex", "internal/lcontext", "internal.(*Done)"},
+				"C06": {"internal/mapr", "internal/clients/maprclient", "internal/clients/handlers.(*MaprHandler)", "internal/server/handlers.(*ServerHandler)"},
+				"C13": {"internal/server/handlers.(*readCommand)", "internal/server.(*Server)", "internal/server.(*stats)", "internal/clients/connectors"}}[p],
+			// the pinned tree's one benign race: FilePath() has a value receiver, so calling it copies the reader's
+			// statistics fields while the filter goroutine updates them (the copy is never read)
+			// (FilePath is inlined into its callers: the reading side shows as handleReadError / Start)
+			RaceIgnore: []string{"fs.readFile.FilePath", "fs.(*readFile).handleReadError()&&fs.(*stats).update", "fs.readFile.Start()&&fs.(*stats).update"},
+			Run:        racePass,
 		})
 	}
 }
